@@ -611,10 +611,11 @@ class CircuitFinderSat:
 
             gate_tt = []
             for p, q in itertools.product(range(2), repeat=2):
+                # a gate type variable that occurs in no clause (every model entry is a
+                # don't-care) is absent from the solver's model: any value will do
                 if self._gate_type_variable(gate, p, q) in model:
                     gate_tt.append(True)
                 else:
-                    assert -self._gate_type_variable(gate, p, q) in model
                     gate_tt.append(False)
 
             first_predecessor_str = (
